@@ -10,8 +10,8 @@ from harness.framework import CaseTimeout, Suite
 
 PID = "C17"
 LEAN_MODS = ["SwcVerif.Props.C17", "SwcVerif.Props.C17Gen", "SwcVerif.Props.C17Front"]
-TRANSLATE_ALGO = ["AlgoMst", "AlgoMstFront"]     # (AlgoMstFront: the whole __call__ up to the tree construction) Gen/AlgoMst.lean is regenerated on every run from transforms/mst.py (the greedy loop of PointsToCuntzMST.__call__)
-DRIVER_FILES = ["SwcVerif/Model/AlgoRunMst.lean", "SwcVerif/Model/AlgoRunMstFront.lean"]
+TRANSLATE_ALGO = ["AlgoMst", "AlgoMstFront", "AlgoMstRest"]     # (AlgoMstFront: the whole __call__ up to the tree construction) Gen/AlgoMst.lean is regenerated on every run from transforms/mst.py (the greedy loop of PointsToCuntzMST.__call__)
+DRIVER_FILES = ["SwcVerif/Model/AlgoRunMst.lean", "SwcVerif/Model/AlgoRunMstFront.lean", "SwcVerif/Model/AlgoRunMstRest.lean"]
 THEOREMS = ["C17.init_inv", "C17.greedy_step", "C17.step_inv", "C17.spanning", "C17.branching_limit", "C17.prim_step", "C17.prim_minimal", "C17.prim_attains",
             # the array library of the translator: the masked `argmin` is the FIRST least unmasked cell in row-major order
             "Py.maArgmin_spec", "Py.unravelIndex_nat",
@@ -746,8 +746,92 @@ class GenCallSuite(Suite):
         return len(case["points"]) >= 3 and "raised" not in res
 
 
+class GenRestSuite(Suite):
+    """The rest of `transforms/mst.py` as GENERATED from the source: the constructors `PointsToCuntzMST.__init__` / `PointsToMST.__init__` (`gmstctor`:
+    the attributes `bf`, `furcations`, `exclude_soma`, `sort` the loop later reads, under every spelling of the arguments — keyword, positional,
+    deprecated alias `k_furcations`, default, `sort` forwarded through `**kwargs` — and values of `bf` on both sides of `np.clip`'s interval) and the final
+    `if self.sort: t = sort_tree(t)` (`gmsttail`: the columns id / pid / type of the tree built with `sort=False` pushed through the generated tail must be
+    those of the tree built with `sort=True`)."""
+    name = "c17.genrest"
+    CUNTZ_DEFAULTS = {"bf": 0.4, "furcations": 2, "exclude_soma": True, "sort": True}      # checked against the `def` by the spec (`defaults`)
+
+    def cases(self, rng, tier, widen):
+        out = []
+        for bf in (None, -0.5, 0.0, 0.25, 1.0, 1.5, 3):
+            for k in (None, -1, 0, 1, 3):
+                kw = {}
+                if bf is not None:
+                    kw["bf"] = bf
+                if k is not None:
+                    kw["furcations"] = k
+                if rng.random() < 0.5:
+                    kw["exclude_soma"] = rng.random() < 0.5
+                if rng.random() < 0.5:
+                    kw["sort"] = rng.random() < 0.5
+                out.append({"class": "genrest/ctor/cuntz", "api": "cuntz", "args": [], "kw": kw})
+        for pos in (None, -1, 1, 4):
+            for kwf in (None, 3):
+                for alias in (None, -1, 5):
+                    if pos is not None and kwf is not None:
+                        continue
+                    kw = {}
+                    if kwf is not None:
+                        kw["furcations"] = kwf
+                    if alias is not None:
+                        kw["k_furcations"] = alias
+                    if rng.random() < 0.5:
+                        kw["exclude_soma"] = rng.random() < 0.5
+                    if rng.random() < 0.5:
+                        kw["sort"] = rng.random() < 0.5
+                    out.append({"class": "genrest/ctor/mst", "api": "mst", "args": [] if pos is None else [pos], "kw": kw})
+        for n in (1, 2, 3, 5, 8, 12):
+            for k in (-1, 2):
+                out.append({"class": f"genrest/tail/n{n}/k{k}", "api": "tail", "points": cloud(rng, n), "bf": rng.choice([0.0, 0.5]), "k": k})
+        return out
+
+    def run(self, case):
+        from swcgeom.transforms import PointsToCuntzMST, PointsToMST
+
+        if case["api"] == "tail":
+            pts = np.array(case["points"], dtype=np.float64)
+            cols = lambda t: {"id": t.id().tolist(), "pid": t.pid().tolist(), "type": t.type().tolist()}
+            return {"raw": cols(PointsToCuntzMST(bf=case["bf"], furcations=case["k"], sort=False)(pts)),
+                    "sorted": cols(PointsToCuntzMST(bf=case["bf"], furcations=case["k"], sort=True)(pts)),
+                    "default": cols(PointsToCuntzMST(bf=case["bf"], furcations=case["k"])(pts))}
+        cls = PointsToMST if case["api"] == "mst" else PointsToCuntzMST
+        with warnings.catch_warnings(record=True) as w:
+            warnings.simplefilter("always")
+            tr = cls(*case["args"], **case["kw"])
+        return {"bf": str(Fraction(float(tr.bf))), "k": int(tr.furcations), "ex": bool(tr.exclude_soma), "sort": bool(tr.sort),
+                "warn": sum(1 for x in w if issubclass(x.category, DeprecationWarning))}
+
+    def lines(self, case, res):
+        if not isinstance(res, dict) or "exc" in res:
+            return []
+        if case["api"] == "tail":
+            r = res["raw"]
+            args = f"ids={gen.ints(r['id'])} pids={gen.ints(r['pid'])} types={gen.ints(r['type'])}"
+            show = lambda c: "|".join([gen.ints(c["id"]), gen.ints(c["pid"]), gen.ints(c["type"])])
+            return [(f"gmsttail {args} sort=1", show(res["sorted"])), (f"gmsttail {args} sort=0", show(r)),
+                    (f"gmsttail {args} sort=1", show(res["default"]))]
+        kw = case["kw"]
+        b = lambda x: str(int(bool(x)))
+        if case["api"] == "cuntz":
+            d = dict(self.CUNTZ_DEFAULTS, **kw)
+            line = f"gmstctor cls=cuntz bf={Fraction(float(d['bf']))} k={d['furcations']} ex={b(d['exclude_soma'])} sort={b(d['sort'])}"
+            return [(line, "|".join([res["bf"], str(res["k"]), b(res["ex"]), b(res["sort"])]))]
+        k = case["args"][0] if case["args"] else kw.get("furcations", 2)
+        kf = kw.get("k_furcations")
+        line = (f"gmstctor cls=mst k={k} kf={'-' if kf is None else kf} ex={b(kw.get('exclude_soma', True))} "
+                f"sort={b(kw['sort']) if 'sort' in kw else '-'}")
+        return [(line, "|".join([res["bf"], str(res["k"]), b(res["ex"]), b(res["sort"]), ",".join(["0"] * res["warn"])]))]
+
+    def nontrivial(self, case, res):
+        return True
+
+
 MST = MstSuite()
-SUITES = [MST, ReuseSuite(), GenLoopSuite(), GenCallSuite()]
+SUITES = [MST, ReuseSuite(), GenLoopSuite(), GenCallSuite(), GenRestSuite()]
 TECHNIQUE = ("Lean 4 theorems about the model of the greedy loop (mask invariant: open cells are exactly connected-unsaturated source × unconnected target; each "
              "iteration connects one new point to an earlier one with the least edge + bf·path cost; child counts never exceed the limit; n-1 iterations give a "
              "spanning tree rooted at 0; for bf = 0 and no limit the exchange argument carried through the whole loop: the returned tree is no longer than any connected spanning edge list, and is itself one) + differential correspondence on the code's own distance matrix + independent re-simulation of the stated rule and a "
